@@ -393,6 +393,88 @@ LENIENT = [
 ]
 
 
+I64_MAX = 2 ** 63 - 1
+DUR_MAX = 9223372036854775        # TimeDelta::MAX, whole seconds
+TS_MAX = 8210266876799            # chrono's last representable second
+
+# one accepted witness per class of extras of the lenient language, and rejected neighbours
+# (Proofs/CliDtLanguage.v extras_witnesses / outside_witnesses: the model accepts / rejects them; so must the binary)
+EXTRAS = ["2000-1-2 3:4:5", "200-01-02 03:04:05", "2000-01-02  03:04:05", "2000- 01-02 03: 04:05", "20000102T030405 +0530",
+          "+ 946684800", "+12345-01-02 03:04:05", "-0001-01-02 03:04:05", "2000-01-02T03:04:05+05 30", "2000-01-02T03:04:05 +05: 30",
+          "2000-01-02T03:04:05+05::30", "2000-01-02T03:04:05Z", "20000102T030405z", "2000-01-02T03:04:05+23:59", "2000-01-02 23:59:60",
+          "2000-01-02T03:04:05 pst", "+00000000000000000000001", "+8210266876799", "+1d2d", "+000d", "+8000000000000s"]
+OUTSIDE = ["2000-01-02T03:04:05+05:3", "2000-01-02T03:04:05+5", "2000-01-02T03:04:05+05:60", "2000-01-02T03:04:05+24:00",
+           " 2000-01-02 03:04:05", "2000-01-02 03:04:05 ", "2000-01-02T03:04:05.1", "2000-01-02T03:04:05.1234", "2000-01-02 24:00:00",
+           "2000-01-02 23:60:00", "2000-02-30 00:00:00", "2000-13-01", "20000102 T000000", "+8210266876800", "+-5", "+5x", "+1d 2h",
+           "+ 1d", "1d", "@1s", "+d", "+", "@", "+9223372036854776s", "2000-01-02T03:04:05 PsT", "2000-01-02T03:04:05PDTX",
+           "foo+1d", "+1dzzz", "++1d"]
+
+
+def rel_last_counts(s):
+    """last count of every unit of a relative form, or None when s is not in the relative grammar"""
+    if not in_rel_grammar(s):
+        return None
+    last = {}
+    for n, u in re.findall(r"(\d+)([smhdw])", s):
+        last[u] = int(n)
+    return last
+
+
+def relative_sum_overflows_timedelta(s):
+    """class predicate: every count fits i64 and every count*unit fits TimeDelta, but their SUM exceeds
+    TimeDelta::MAX: `TimeDelta + TimeDelta` panics (the process aborts) instead of a clean rejection"""
+    if s is None:
+        return False
+    last = rel_last_counts(s)
+    if last is None:
+        return False
+    if any(v > I64_MAX for v in last.values()) or any(v * UNIT_SECS[u] > DUR_MAX for u, v in last.items()):
+        return False
+    return sum(v * UNIT_SECS[u] for u, v in last.items()) > DUR_MAX
+
+
+def gen_epoch_long(rng, n):
+    """'+epoch' with many leading zeros: documented value range, any length (C and B)"""
+    out = []
+    for k in [1, 7, 20, 64, 200, 1000, 2, 19, 40][:n]:
+        v = rng.choice([0, 1, 946684800, 253402300799, rng.randrange(0, 4102444800)])
+        out.append(("epoch", [0] * k + [int(c) for c in str(v)]))
+    return out
+
+
+def gen_extended_strings(rng, quick):
+    """B-only: beyond the documented grammar but inside what the theorems speak about"""
+    out = []
+    for v in [TS_MAX, TS_MAX + 1, TS_MAX - 1, 253402300799, 253402300800, I64_MAX, I64_MAX + 1, 10 ** 19, 10 ** 30 - 1,
+              rng.randrange(10 ** 12, 10 ** 13), rng.randrange(10 ** 13, 10 ** 19)]:
+        out.append(("+%d" % v, None))
+    out.append(("+" + "0" * 300 + "5", None))
+    out.append(("+" + "9" * 200, None))
+    # repeated units, long sequences
+    for _ in range(20 if quick else 300):
+        k = rng.choice([2, 3, 5, 8, 13, 40])
+        items = "".join("%d%s" % (rng.choice([0, 1, 7, 30, 999, rng.randrange(0, 100000)]), rng.choice("smhdw")) for _ in range(k))
+        sign = rng.choice("+-")
+        if rng.random() < 0.3:
+            out.append(("2000-01-02T03:04:05", "@" + sign + items) if sign == "+" else ("@" + sign + items, "2000-01-02T03:04:05"))
+        else:
+            out.append((sign + items, None))
+    # counts next to every guard
+    for u, secs in UNIT_SECS.items():
+        c = DUR_MAX // secs
+        for v in (c, c + 1, c - 1, I64_MAX, I64_MAX + 1, I64_MAX // secs, I64_MAX // secs + 1):
+            out.append(("%s%d%s" % (rng.choice("+-"), v, u), None))
+            out.append(("%s%s%d%s" % (rng.choice("+-"), "0" * rng.choice([1, 30]), v, u), None))
+    # sums next to the guard (the first ones abort: class relative_sum_overflows_timedelta)
+    out += [("+%ds1m" % DUR_MAX, None), ("-%ds1s" % DUR_MAX, None), ("+%ds%dm" % (DUR_MAX // 2, DUR_MAX // 120 + 1), None),
+            ("+%ds1m" % (DUR_MAX - 60), None), ("+%dw%dd" % (DUR_MAX // 604800, 7), None),
+            ("+1s%ds" % DUR_MAX, None), ("+%ds1m0m" % DUR_MAX, None)]
+    # results next to chrono's range
+    for d in (6510000000000, 6520000000000, 10030000000000, 10040000000000):
+        out.append(("+%ds" % d, None)); out.append(("-%ds" % d, None))
+    return out
+
+
 # ----------------------------------------------------------------------------- Coq evaluation
 
 HDR = (vlib.COQ_PRINT_HDR + "From Coq Require Import String List NArith ZArith.\nImport ListNotations.\n"
@@ -522,14 +604,27 @@ def probe_pair(scratch, name, a, b, tzs, stamps):
 
 # ----------------------------------------------------------------------------- the check
 
+def _tick(label):
+    if os.environ.get("S4_VERIF_TIMING"):
+        import time
+        sys.stderr.write("[c14 %7.1fs] %s\n" % (time.time() - _T0[0], label))
+
+
+_T0 = [0.0]
+
+
 def run(ctx):
+    import time
+    _T0[0] = time.time()
     quick = ctx.quick()
     rng = ctx.rng
     vlib.proof_stage(ctx, PROP_FILE, ["clidt"], extra_targets=["Corr/C14.vo"])
+    _tick("proof stage done")
     ok, log = vlib.build_s4()
     if not ok:
         ctx.obligation_broken("build", "s4 binary", log)
         return ctx.finish()
+    _tick("s4 built")
     scratch = vlib.scratch_dir("C14")
     probe = os.path.join(scratch, "probe.log")
     with open(probe, "w") as f:
@@ -551,12 +646,22 @@ def run(ctx):
     # ------------------------------------------------------------------ C cases: (fa, fb, tzs, wf, kind)
     ccases = []
     absf = gen_absolute(rng, names_ok, 1 if quick else 5, 3 if quick else len(names_ok))
+    absf += gen_epoch_long(rng, 6 if quick else 9)
+    name_all = []
+    for name in names_ok:          # EVERY unambiguous zone name (both spellings of the table), random fields
+        l = rng.choice(LAYOUTS)
+        y, m, d = gen_date(rng)
+        h, mi, sec = gen_time(rng)
+        name_all.append(("dt", l, y, m, d, h, mi, sec, gen_frac(rng, rng.choice([0, 1, 2])), ("name", rng.choice(space_options(l)), name)))
     for f in absf:
         tzs = rng.choice(TZ_C)
         if rng.random() < 0.5:
             ccases.append((f, None, tzs, True, "abs-a"))
         else:
             ccases.append((None, f, tzs, True, "abs-b"))
+    for f in name_all:
+        tzs = rng.choice(TZ_C)
+        ccases.append((f, None, tzs, True, "abs-name-all") if rng.random() < 0.5 else (None, f, tzs, True, "abs-name-all"))
     relf = gen_relative(rng, 2 if quick else 16)
     anchor_pool = [f for f in absf if f[0] in ("dt", "date") and 1000 <= f[2] <= 8000]
     for f in relf:
@@ -606,6 +711,7 @@ def run(ctx):
 
     cargs = [(render(fa) if fa else None, render(fb) if fb else None, tzs) for fa, fb, tzs, _, _ in ccases]
     cres = run_many(cargs, probe)
+    _tick("C runs done: %d" % len(cargs))
 
     # rejection spec, no Coq needed: near-miss strings, ambiguous --tz-offset
     nm = sorted(set(gen_near_miss(rng, 300 if quick else 6000)))
@@ -617,6 +723,7 @@ def run(ctx):
     for name in names_amb[:(10 if quick else len(names_amb))]:
         nmargs.append(("20000101", None, name))
     nmres = run_many(nmargs, probe)
+    _tick("near-miss runs done: %d" % len(nmargs))
 
     # ------------------------------------------------------------------ C evaluation
     rows = []
@@ -625,6 +732,7 @@ def run(ctx):
         rows.append("(%s, %s, %s, %s, %s, %s, %s, (%d, %s, %s))" % (coq_form(fa), coq_form(fb), hexs(ha), hexs(hb), cbool(wf),
                     zc(tz_secs(tzs)), zc(now_of(r)), oc[0], zc(oc[1]), zc(oc[2])))
     sbad = coq_shards(ctx, "spec", rows, "option form * option form * option string * option string * bool * Z * Z * outcome", "spec_bad", "spec-evaluation")
+    _tick("spec evaluated")
     spec_fail = 0
     gen_bad = 0
 
@@ -664,6 +772,12 @@ def run(ctx):
     for s in LENIENT:
         bcases.append((s, None, rng.choice(TZ_C)))
         bcases.append((None, s, rng.choice(TZ_C)))
+    ext = gen_extended_strings(rng, quick)
+    for (a, b) in ext:
+        bcases.append((a, b, rng.choice(TZ_C)))
+    n_wit0 = len(bcases)
+    for w in EXTRAS + OUTSIDE:
+        bcases.append((w, None, "+00:00"))
     tz_b = ["+09", "+0900", "-0330", "JST", "pst", "IDLW", "Z", "UTC", "+23:59", "-23:59", "+14", "vlat", "-00:00", "+00"]
     for tzs in tz_b:
         f = rng.choice(anchor_pool)
@@ -679,11 +793,13 @@ def run(ctx):
     bcases = [c for c in bcases if all(x is None or "\x00" not in x for x in c)]
     n_reuse = len(cargs) + len(nmargs)
     bres = cres + nmres + run_many(bcases[n_reuse:], probe)
+    _tick("B runs done: %d" % (len(bcases) - n_reuse))
     rows = []
     for (a, b, tzs), r in zip(bcases, bres):
         oc = r["outcome"]
         rows.append('(%s, %s, "%s", %s, (%d, %s, %s))' % (hexs(a), hexs(b), tzs.encode().hex(), zc(now_of(r)), oc[0], zc(oc[1]), zc(oc[2])))
     mbad = coq_shards(ctx, "model", rows, "option string * option string * string * Z * outcome", "model_bad", "correspondence")
+    _tick("model evaluated")
     model_dis = 0
     if mbad is not None:
         model_dis = len(mbad)
@@ -694,8 +810,25 @@ def run(ctx):
                                   json.dumps(dict(a=a, b=b, tz_offset=tzs, now=bres[i]["now"], impl=list(bres[i]["outcome"]), rc=bres[i]["rc"],
                                                   model=list(m), disagreements=model_dis)))
     bad_rc = [i for i, r in enumerate(bres) if r["rc"] not in (0, 1, 2)]
-    for i in bad_rc[:3]:
+    panics = 0
+    for i in bad_rc:
+        a, b, tzs = bcases[i]
+        if bres[i]["rc"] in (134, -6) and (relative_sum_overflows_timedelta(a) or relative_sum_overflows_timedelta(b)):
+            panics += 1          # rejected, but by a panic: known finding
+            ctx.failure(dict(a=a, b=b, tz_offset=tzs, kind="relative form whose sum of units exceeds TimeDelta::MAX"),
+                        "rejected with exit status 1 and a message", "rc=134 (panic in `TimeDelta + TimeDelta`, process aborted)",
+                        ["relative_sum_overflows_timedelta"])
+    for i in [i for i in bad_rc if not (bres[i]["rc"] in (134, -6) and (relative_sum_overflows_timedelta(bcases[i][0]) or relative_sum_overflows_timedelta(bcases[i][1])))][:3]:
         ctx.obligation_broken("correspondence", "unexpected exit status %s" % bres[i]["rc"], json.dumps(dict(a=bcases[i][0], b=bcases[i][1], tz_offset=bcases[i][2])))
+    # the witnesses of the language theorem: accepted extras are accepted, rejected neighbours are rejected, by the binary too
+    wit_bad = 0
+    for k, w in enumerate(EXTRAS + OUTSIDE):
+        r = bres[n_wit0 + k]
+        want = k < len(EXTRAS)
+        if (r["rc"] == 0) != want:
+            wit_bad += 1
+            ctx.obligation_broken("correspondence", "witness of Proofs/CliDtLanguage.v: %r should be %s by the binary" % (w, "accepted" if want else "rejected"),
+                                  json.dumps(dict(rc=r["rc"], outcome=list(r["outcome"]))))
 
     # ------------------------------------------------------------------ sub-second digits through the probe log
     fidx = [i for i, (fa, fb, tzs, wf, kind) in enumerate(ccases)
@@ -768,6 +901,7 @@ def run(ctx):
                                     dict(rc=0, printed_line_indices=want),
                                     dict(rc=rc1, printed_line_indices=got1, equivalent_pair_rc=rc2, equivalent_pair_printed=got2))
 
+    _tick("probes done")
     # ------------------------------------------------------------------ evidence
     allstr = set()
     for (a, b, tzs) in bcases:
@@ -795,9 +929,13 @@ def run(ctx):
         rejected_runs=rej, accepted_runs=len(bres) - rej,
         model_disagreements=model_dis, spec_failures=spec_fail, near_miss_failures=nm_fail,
         subsecond_probe_runs=sub_checked, subsecond_failures=sub_fail,
-        at_fraction_pairs_probed=at_checked, at_fraction_probe_runs=2 * at_checked, at_fraction_failures=at_fail)
+        at_fraction_pairs_probed=at_checked, at_fraction_probe_runs=2 * at_checked, at_fraction_failures=at_fail,
+        zone_names_every=len(name_all), epoch_long_digit_strings=sum(1 for f in absf if f[0] == "epoch" and len(f[1]) > 12),
+        extended_strings=len(ext), repeated_unit_strings=sum(1 for a, b in ext for x in (a, b) if x and rel_last_counts(x.lstrip("@")) is not None and len(re.findall(r"[smhdw]", x)) != len(set(re.findall(r"[smhdw]", x)))),
+        language_witnesses=len(EXTRAS) + len(OUTSIDE), language_witness_disagreements=wit_bad, sum_overflow_panics=panics)
     ctx.assumptions += [
         "arguments are ASCII (is_alphabetic / is_whitespace / \\d of the Rust code are modelled for ASCII only); no NUL",
+        "a relative form whose sum of units exceeds TimeDelta::MAX aborts the process (rc 134): recorded as a known finding, the model's DurExit",
         "chrono 0.4.40 parse_from_str for the specifiers %Y %m %d %H %M %S %s %3f %6f %z %:z %#z %Z, to_naive_datetime_with_offset, to_datetime, TimeDelta::try_*, checked_add_signed are transcribed by hand (Model/CliDt.v) and tied only by run B; second=60 (leap second) and instants within a day of chrono's MIN/MAX are outside run B's generator",
         "the relative-offset regular expression is modelled as a hand-written recogniser for exactly the expression assembled in REGEX_DUR_OFFSET (shape checked by the translator: [^]type addsub ( unit | ... )+[$]); the regex crate itself is exercised only by runs B and C",
         "the summary prints bounds to whole seconds; sub-second digits are tied through the effect on a probe log (1 us around the bound), for years 1971-2098",
